@@ -778,6 +778,55 @@ func TestEnumDescentAfter(t *testing.T) {
 	suite.Extra("descent_after_matrix_exhaustive_over", fmt.Sprintf("%d trees x %d fragments that select several elements x descent x %d continuations x 5 representations", len(datas), len(heads), len(tails)))
 }
 
+// TestEnumSlices: every slice with bounds -3..3 (or left out) and steps -2..3 (or left out) on
+// arrays of 0..4 elements, last and followed by a child / index / wildcard, on all five
+// representations: Get, First, Has, Locate, Walk and the node forms each find the elements of a
+// slice in code of their own (sliceLast for the ones that stack what they selected).
+func TestEnumSlices(t *testing.T) {
+	lo, hi, maxLen := -3, 3, 4
+	if vrt.Thorough() {
+		lo, hi, maxLen = -6, 6, 6
+	}
+	var slices [][]int
+	slices = append(slices, nil)
+	for a := lo; a <= hi; a++ {
+		slices = append(slices, []int{a})
+		ends := []int{jpx.MaxEnd}
+		for b := lo; b <= hi; b++ {
+			ends = append(ends, b)
+		}
+		for _, b := range ends {
+			slices = append(slices, []int{a, b})
+			for st := -2; st <= 3; st++ {
+				slices = append(slices, []int{a, b, st})
+			}
+		}
+	}
+	tails := [][]jpx.Frag{nil, {{K: "child", Key: "a"}}, {{K: "nth", N: 0}}, {{K: "wild"}}}
+	n := 0
+	for size := 0; size <= maxLen; size++ {
+		arr := make([]any, size)
+		for i := range arr {
+			arr[i] = map[string]any{"a": int64(i)}
+			if i%3 == 2 {
+				arr[i] = []any{int64(i), int64(i + 10)}
+			}
+		}
+		enc := wx.Enc(arr)
+		for _, sl := range slices {
+			for _, tail := range tails {
+				p := append(jpx.Path{{K: "root"}, {K: "slice", S: sl}}, tail...)
+				for _, rep := range []string{"simple", "gen", "typed", "struct", "wrapped"} {
+					vrt.Eval(suite, "agree", Case{Path: p, Data: enc, Rep: rep, Max: 1 + n%3}, Run)
+					n++
+				}
+			}
+		}
+	}
+	suite.AddExtra("slice_matrix_cases", int64(n))
+	suite.Extra("slice_matrix_exhaustive_over", fmt.Sprintf("arrays of 0..%d elements x slices with bounds %d..%d or left out and steps -2..3 or left out x {last, child, index, wildcard after it} x 5 representations", maxLen, lo, hi))
+}
+
 func TestPropRandom(t *testing.T) {
 	vrt.Rapid(t, suite, "agree", vrt.Scale(30000, 200000), drawCase, Run)
 }
